@@ -93,6 +93,10 @@ pub enum Op {
     FoldKeyed(P, Comb),
     ReduceKeyed(P, Comb),
     Scan(P),
+    /// `scan` whose closure returns `None` exactly on the sentinel item `(1,0)` (and `Some` again
+    /// afterwards, were it still called): the stream terminates at the first `None` — for the rest
+    /// of the tick (`'tick`) or for good (`'static`).
+    ScanStop(P),
     DeferTick,
     DeferTickLazy,
     LatticeFold(P),
@@ -217,7 +221,7 @@ impl Op {
     pub fn order_sensitive(&self, i: usize) -> bool {
         use Op::*;
         match self {
-            Enumerate(_) | Scan(_) => true,
+            Enumerate(_) | Scan(_) | ScanStop(_) => true,
             Fold(_, c) | FoldNoReplay(_, c) | Reduce(_, c) | ReduceNoReplay(_, c) | FoldKeyed(_, c)
             | ReduceKeyed(_, c) => *c == Comb::Ord,
             ChainFirstN(_) => true,
@@ -294,7 +298,7 @@ impl Prog {
                         f => f,
                     }]
                 }
-                Unique(_) | Enumerate(_) | Scan(_) => vec![weakest(&inf)],
+                Unique(_) | Enumerate(_) | Scan(_) | ScanStop(_) => vec![weakest(&inf)],
                 // a total order on the items: fully determined by the input multiset
                 Sort => vec![Flag::Seq],
                 SortByKey => vec![Flag::Runs(RunKey::First)],
@@ -359,7 +363,7 @@ impl Prog {
                     MapFn::ToSingletonSet => s("dfir_rs::lattices::set_union::SetUnionSingletonSet<u8>"),
                     MapFn::ToEnum => s("vf_dfir_rt::Kv2"),
                 }],
-                Filter | FilterMap | FlatMap | Flatten | Reduce(..) | ReduceNoReplay(..) | ReduceKeyed(..) | Scan(_) => vec![s(KV)],
+                Filter | FilterMap | FlatMap | Flatten | Reduce(..) | ReduceNoReplay(..) | ReduceKeyed(..) | Scan(_) | ScanStop(_) => vec![s(KV)],
                 Probe(_) | Identity | Handoff | Sort | SortByKey | Unique(_) | Persist | MultisetDelta | DeferTick
                 | DeferTickLazy | Singleton | Chain | ChainFirstN(_) | DeferSignal | AntiJoin(..) | Difference(..) => {
                     vec![it[0].clone()]
